@@ -836,6 +836,22 @@ def check_accounting_blocking(ctx, rep, pid):
             rep.ob(pid + '.R5', fn, 'blocking_active-cleared-in-BlockingEnd', ok, '')
         else:
             rep.ob(pid + '.R5', fn, 'blocking_active-value', False, 'non-constant value %s' % shape(v))
+    # the converse: every BlockingBegin / BlockingEnd event is accounted, whatever machine it names
+    rs = lambda pe_, val_: is_field(pe_, 'blocking_active', 'Framework')
+    pfs = an.paths(fn, history=True, record_stores=rs, tag='blkacct')
+    for r in fa.cfg.returns:
+        for S in pfs.at_entry(r):
+            kinds = {f[2] for f in S if f[0] == 'variant' and root_of(f[1]) == ('param', 2) and f[2] in ('BlockingBegin', 'BlockingEnd')}
+            stored = [f for f in S if f[0] == 'stored' and f[1][1] == 'blocking_active']
+            act = [f[2] for f in S if f[0] == 'btrue' and is_field(f[1], 'blocking_active', 'Framework')]
+            if 'BlockingBegin' in kinds:
+                ok = any(is_const(f[3], 1) for f in stored) or (True in act)
+                rep.ob(pid + '.R5', fn, 'every-BlockingBegin-marks-blocking-active', ok,
+                       '' if ok else 'a path handles BlockingBegin and returns without blocking_active being (or becoming) true: ' + show_facts(S))
+            if 'BlockingEnd' in kinds:
+                ok = any(is_const(f[3], 0) for f in stored) or (False in act)
+                rep.ob(pid + '.R5', fn, 'every-BlockingEnd-clears-blocking-active', ok,
+                       '' if ok else 'a path handles BlockingEnd and returns with blocking_active possibly still set: ' + show_facts(S))
     # additions to the durations
     adds = 0
     for (b, f, args, t) in calls(fa):
